@@ -10,6 +10,7 @@ cancels symbolically (AInt.negof).
 from fractions import Fraction
 
 from aval import AInt, AAgg, AFloat, ARef, mask, to_signed
+from interp import site_key
 import aval
 from interp import Interp
 import spec as S
@@ -127,7 +128,7 @@ def check_conversion(ctx, prog, rule, label, path, src, kind, dst, gargs=None, s
                 if out.kind in ('panic', 'budget'):
                     site = getattr(out, 'site', None)
                     if out.kind == 'panic' and site:
-                        ctx.finding('PANIC', site[0], '%s#%d' % (site[1], site[2]),
+                        ctx.finding('PANIC', *site_key(site),
                                     '%s at %s: reached on regime cell %s of %s; the operation does not return in an overflow-checked build' % (out.value, out.where, cname, label),
                                     {'function': path})
                     else:
